@@ -293,6 +293,22 @@ fn bench() {
         drop(w);
     }
     println!("create+drop (0 ks): {:?}/iter", t.elapsed() / n);
+    let t = Instant::now();
+    for _ in 0..n {
+        let d = explore::fresh_dir();
+        let db = fjall::Database::builder(&d).worker_threads_unchecked(0).cache_size(1 << 20).open().unwrap();
+        drop(db);
+        let _ = std::fs::remove_dir_all(&d);
+    }
+    println!("raw create+drop, 1 MiB cache: {:?}/iter", t.elapsed() / n);
+    let t = Instant::now();
+    for _ in 0..n {
+        let d = explore::fresh_dir();
+        let db = fjall::Database::builder(&d).worker_threads_unchecked(0).open().unwrap();
+        drop(db);
+        let _ = std::fs::remove_dir_all(&d);
+    }
+    println!("raw create+drop, default cache: {:?}/iter", t.elapsed() / n);
     let mut w = World::new(explore::fresh_dir(), Cfg::default2()).unwrap();
     w.apply(&Op::parse("ins x.a=1").unwrap()).unwrap();
     w.apply(&Op::parse("ins x.b=2").unwrap()).unwrap();
